@@ -294,7 +294,7 @@ SignerSets == {{"CMT"}, {}}
 Cand == IF Quick THEN CandQ ELSE CandT
 S4(a, b, c, d) == a \o <<DOT>> \o b \o <<DOT>> \o c \o <<DOT>> \o d
 V6(a, b) == a \o <<COLON>> \o b \o <<COLON, COLON, 49>>
-DataCand ==
+DataCandT ==
   {<<TypA, S4(<<49>>, <<50>>, <<51>>, <<52>>)>>,            \* 1.2.3.4
    <<TypA, S4(<<43, 49>>, <<50>>, <<51>>, <<52>>)>>,        \* +1.2.3.4
    <<TypA, S4(<<49, 48>>, <<50>>, <<51>>, <<52>>)>>,        \* 10.2.3.4
@@ -307,6 +307,17 @@ DataCand ==
    <<TypCNAME, <<120, 46, 46, 97>>>>,                       \* x..a
    <<TypTXT, <<>>>>, <<TypTXT, Rep(120, 255)>>, <<TypTXT, Rep(120, 256)>>,
    <<TypSOA, <<120>>>>, <<2, <<120>>>>}
+DataCandQ ==
+  {<<TypA, S4(<<49>>, <<50>>, <<51>>, <<52>>)>>,            \* 1.2.3.4
+   <<TypA, S4(<<43, 49>>, <<50>>, <<51>>, <<52>>)>>,        \* +1.2.3.4
+   <<TypA, S4(<<48, 49>>, <<50>>, <<51>>, <<52>>)>>,        \* 01.2.3.4
+   <<TypAAAA, V6(<<50, 48, 48, 49>>, <<50, 48, 48>>)>>,     \* 2001:200::1
+   <<TypAAAA, V6(<<50, 48, 48, 49>>, <<102, 48, 48, 48>>)>>,\* 2001:f000::1
+   <<TypCNAME, <<120, 46, 97, 98, 99>>>>,                   \* x.abc
+   <<TypCNAME, <<120, 46, 46, 97>>>>,                       \* x..a
+   <<TypTXT, <<>>>>, <<TypTXT, Rep(120, 256)>>,
+   <<TypSOA, <<120>>>>}
+DataCand == IF Quick THEN DataCandQ ELSE DataCandT
 RecNames == {RecName, <<97, 98, 99>>}                       \* a registered domain and a TLD
 
 NextOf(P(_)) ==
